@@ -19,7 +19,7 @@ fn main() {
     let args: Vec<String> = std::env::args().collect();
     let seed: u64 = args[1].parse().unwrap();
     let n: usize = args[2].parse().unwrap();
-    if std::env::var("ORACLE_DEBUG").is_err() { std::panic::set_hook(Box::new(|_| {})); }
+    if std::env::var("ORACLE_DEBUG").is_err() { ezpz_verif_harness::oracle::arm_crash_reporter("C11"); }
     let mut rng = Rng::new(seed);
     let mut out: Vec<Violation> = Vec::new();
     let (mut systems, mut chains, mut links, mut exact_starts, mut near_starts, mut boundary_starts) = (0usize, 0usize, 0usize, 0usize, 0usize, 0usize);
@@ -34,6 +34,7 @@ fn main() {
             sys = with_priorities(&mut rng, sys);
         }
         systems += 1;
+        ezpz_verif_harness::oracle::note_current(&sys);
         // (a) exact start: planted solution as the guess
         if let Some(xs) = sys.planted.clone() {
             let mut s = sys.clone();
